@@ -74,6 +74,7 @@ def rule_wrappers(ctx: Ctx) -> None:
 
 
 KNOCKOUTS = [
+    Knockout("symplectic-form-sized-by-rows", "graphiq/backends/stabilizer/functions/utils.py", sub_once("    dim = int(matrix1.shape[1] / 2)\n    symplectic_p", "    dim = matrix1.shape[0]\n    symplectic_p"), "dim.symplectic-form", "binary_symplectic_product"),
     Knockout("measure-x-not-rotated-back", CLIFF, sub_once("    # rotate back: the gates act in place on the caller's tableau\n    hadamard_gate(stabilizer_state_new, qubit_position)\n", ""), "measure.basis-restored", "measure_x"),
     Knockout("measure-y-rotated-back-with-wrong-phase", CLIFF, sub_once("    phase_gate(new_tableau, qubit_position)\n    return outcome", "    phase_dagger_gate(new_tableau, qubit_position)\n    return outcome"), "measure.basis-restored", "measure_y"),
     Knockout("trace-out-passes-removal-as-keep", gatesum.SSTATE, sub_nth("keep=[q for q in range(self.n_qubits) if q not in qubit_positions],", "keep=qubit_positions,", 0), "trace.keep-complement", "Stabilizer.trace_out_qubits"),
